@@ -85,3 +85,34 @@ def report_naming_only_files_outside_any_repository():
         return s.kinds()
     finally:
         s.destroy()
+
+
+def transcript_path_that_is_a_named_pipe():
+    """D100: `git-ai checkpoint gemini` with a `transcript_path` that is a named pipe nobody writes to => the hook never returns (the
+    transcript is read with an unguarded read_to_string; codex, continue-cli and others read theirs the same way), so the agent that
+    called the hook hangs. Edited files that are pipes, directories or missing are handled."""
+    import json
+    import os
+    w = World(name="WC20c", mode="wrapper", init=True)
+    try:
+        w.write_bytes("f.txt", b"one\ntwo\n"); w.git("add", "-A", plain=True); w.git("commit", "-q", "-m", "init", plain=True)
+        fifo = os.path.join(w.root, "tr.fifo")
+        os.mkfifo(fifo)
+        w.write_bytes("f.txt", b"one\ntwo\nthree\n")
+        payload = {"session_id": "s", "transcript_path": fifo, "cwd": w.repo, "hook_event_name": "AfterTool", "tool_input": {"file_path": os.path.join(w.repo, "f.txt")}}
+        pr = c20.run_hook([BIN_PATH(), "checkpoint", "gemini", "--hook-input", json.dumps(payload)], w.repo, w.env(), None)
+        kinds = []
+        if pr.rc == -998:
+            kinds.append("C20/hook-blocked-for-ever@transcript-fifo")
+        elif pr.rc == -999:
+            kinds.append("harness:watchdog-without-verdict")
+        elif pr.rc != 0:
+            kinds.append("C20/nonzero-exit@transcript-fifo")
+        return kinds, [dict(rc=pr.rc, stderr=pr.stderr[-200:])]
+    finally:
+        w.destroy()
+
+
+def BIN_PATH():
+    from ..world import BIN
+    return BIN
